@@ -364,11 +364,11 @@ Definition check_C01 (v out : val) : bool :=
   match cfg_base c with
   | None => true
   | Some b =>
+    if negb (domainb c b s) then true
+    else if oracle_needed c && negb (oracle_okb (split_input (b_sv b) s ign) os) then true
+    else
     match out with
     | L [I 1%Z; L [idsv]; dk; di; db; L _] =>
-      if negb (domainb c b s) then true
-      else if oracle_needed c && negb (oracle_okb (split_input (b_sv b) s ign) os) then true
-      else
         let ids := v_list v_n idsv in
         let body := middle b ids in
         let exact := ign || prefix_freeb (b_sv b) in
